@@ -42,6 +42,19 @@ template <typename F> static std::string iir(const Args& a)
     for (size_t i = 1; i < a.size(); ++i) r.push_back(bits(f(F(a[i]) / F(4096))));
     return join(r);
 }
+// firs <d> <k> x...: the 150-tap receive filter on inputs x / 2^k (reset marker as in `fir`)
+template <typename F> static std::string firs(const Args& a)
+{
+    BaseFirFilter<F, 150> f{detail::Taps<F>::rrc_taps};
+    std::vector<long long> r;
+    if (a.size() < 2) return "bad-op";
+    const F sc = std::ldexp(F(1), int(a[1]));
+    for (size_t i = 2; i < a.size(); ++i) {
+        if (a[i] == 999999) { f.reset(); continue; }
+        r.push_back(bits(f(F(a[i]) / sc)));
+    }
+    return join(r);
+}
 // iirs <d> <k> x...: the same filter on inputs scaled to x / 2^k (small amplitudes; the filter is linear, so every amplitude matters)
 template <typename F> static std::string iirs(const Args& a)
 {
@@ -119,6 +132,7 @@ static std::string handle(const std::string& op, const Args& a)
     bool d = !a.empty() && a[0] != 0;
     if (op == "fir") return d ? fir<double>(a) : fir<float>(a);
     if (op == "iir") return d ? iir<double>(a) : iir<float>(a);
+    if (op == "firs") return d ? firs<double>(a) : firs<float>(a);
     if (op == "iirs") return d ? iirs<double>(a) : iirs<float>(a);
     if (op == "sdft") return d ? sdft<double>(a) : sdft<float>(a);
     if (op == "sdft1") return d ? sdft1<double>(a) : sdft1<float>(a);
